@@ -426,7 +426,9 @@ func stressCase(c *ev.Case) {
 			default:
 			}
 			n := l.Len()
-			lenObs.Add(1)
+			if lenObs.Add(1)&15 == 0 {
+				runtime.Gosched()
+			}
 			if n < 0 {
 				lenNeg.Add(1)
 			}
@@ -463,12 +465,14 @@ func stressCase(c *ev.Case) {
 					misses = 0
 					popped.Add(1)
 					got[q] = append(got[q], int32(v))
-				} else if prodDone.Load() == int64(P) {
-					misses++
-					if misses > 2000000 {
-						return
+				} else {
+					runtime.Gosched() // keeps restricted GOMAXPROCS settings moving
+					if prodDone.Load() == int64(P) {
+						misses++
+						if misses > 2000000 {
+							return
+						}
 					}
-					runtime.Gosched()
 				}
 			}
 		}(q)
@@ -547,12 +551,12 @@ func main() {
 	if r.HasViolations() {
 		r.Finish()
 	}
-	r.CasesProc("stress/race", r.N(12, 60), ev.Opt{Bin: "race", Procs: 3, AlwaysLog: true}, stressCase)
-	r.CasesProc("stress/jitter", r.N(6, 30), ev.Opt{Bin: "shimrace", Procs: 2, AlwaysLog: true, Env: []string{"VERIF_JITTER=1"}}, stressCase)
+	r.CasesProc("stress/race", r.N(12, 60), ev.Opt{Bin: "race", Procs: 3, AlwaysLog: true, MaxCaseSeconds: 1500}, stressCase)
+	r.CasesProc("stress/jitter", r.N(6, 30), ev.Opt{Bin: "shimrace", Procs: 2, AlwaysLog: true, MaxCaseSeconds: 1500, Env: []string{"VERIF_JITTER=1"}}, stressCase)
 	if r.Thorough() {
 		for _, p := range []string{"2", "4"} {
 			r.CasesProc("free/race/P"+p, nfree/2, ev.Opt{Bin: "race", Procs: 6, AlwaysLog: true, Env: []string{"GOMAXPROCS=" + p}}, freeCase)
-			r.CasesProc("stress/race/P"+p, 12, ev.Opt{Bin: "race", Procs: 3, AlwaysLog: true, Env: []string{"GOMAXPROCS=" + p}}, stressCase)
+			r.CasesProc("stress/race/P"+p, 12, ev.Opt{Bin: "race", Procs: 3, AlwaysLog: true, MaxCaseSeconds: 1500, Env: []string{"GOMAXPROCS=" + p}}, stressCase)
 		}
 	}
 	r.Require("histories_checked", int64(nctl/2))
